@@ -3,9 +3,9 @@
 
 The reference is what the alignment layer views the current tree against (names of locals, helper structure, function
 names and signatures).  It is a copy of src/halmos/*.py of a tree on which every check was run and read by a person.
-Run this ONLY after (1) `./check Cxx` is clean for every property on that tree with HSA_NO_ALIGN=1 *or* every remaining
-alarm was reviewed as a shape change of a correct refactoring and the rule's anchors were updated, and (2) the thorough
-tier is green.  It never runs as part of a check.
+Run this ONLY on a tree whose every alarm was reviewed by a person: either `./check Cxx` is clean for every property, or
+each remaining alarm was read, found to be the shape change of a correct refactoring (as for `benign_unresolved/`), and
+the anchors / instance tables of the rules concerned were updated with it.  It never runs as part of a check.
 
     tools/make_reference.py [/path/to/repo]
 """
